@@ -210,28 +210,30 @@ func genIter(r *lib.Rng, mode int) *IterSpec {
 func genProgram(r *lib.Rng, idx int, maxOps int) *Program {
 	p := &Program{Mode: idx % 5}
 	p.FF = p.Mode == 1 || p.Mode == 2
-	if !p.FF && maxOps > 400 {
-		maxOps = 400 + (maxOps-400)/4 // three-way cases pay one fsync per badger write
+	lo := 200
+	if !p.FF { // three-way cases pay one fsync per badger write: shorter programs
+		lo = 120
+		maxOps = 260 + (maxOps-600)*44/140
 	}
-	n := r.Range(200, maxOps)
+	n := r.Range(lo, maxOps)
 	for i := 0; i < n; i++ {
 		x := r.Intn(100)
 		tag := fmt.Sprint(i)
 		switch {
-		case x < 28:
+		case x < 20:
 			v, vnil := randVal(r, tag)
 			kind := "set"
 			if r.Chance(4) {
 				kind = "setsync"
 			}
 			p.Ops = append(p.Ops, Op{Kind: kind, K: randKey(r, p.Mode), V: v, VNil: vnil})
-		case x < 40:
+		case x < 29:
 			kind := "del"
 			if r.Chance(4) {
 				kind = "delsync"
 			}
 			p.Ops = append(p.Ops, Op{Kind: kind, K: randKey(r, p.Mode)})
-		case x < 52:
+		case x < 38:
 			op := Op{Kind: "batch", Sync: r.Chance(5)}
 			m := r.Range(1, 8)
 			for j := 0; j < m; j++ {
@@ -250,7 +252,7 @@ func genProgram(r *lib.Rng, idx int, maxOps int) *Program {
 				op.Batch = append(op.Batch, b)
 			}
 			p.Ops = append(p.Ops, op)
-		case x < 64:
+		case x < 48:
 			p.Ops = append(p.Ops, Op{Kind: "get", K: randKey(r, p.Mode)})
 		case x < 99:
 			p.Ops = append(p.Ops, Op{Kind: "iter", It: genIter(r, p.Mode)})
@@ -1213,7 +1215,7 @@ var (
 )
 
 func run(c *lib.Ctx) {
-	c.Rule("case = generated program (200..N ops: Set/SetSync/Delete/DeleteSync, batches with repeated keys, deletes, empty/nil values and Write+Reset reuse, Get, " +
+	c.Rule("case = generated program (200..N ops, 120..N/3 when badger takes part: Set/SetSync/Delete/DeleteSync, batches with repeated keys, deletes, empty/nil values and Write+Reset reuse, Get, " +
 		"iterator queries with prefix / explicit [start,end) / open ranges, forward and reverse, driven by Rewind/Seek/Next scripts, leveldb compaction) over 5 key alphabets " +
 		"({a,b}; {00,01,fe,ff}; path-like stems with 0xff; {00,01,7f,fe}; path-like stems without 0xff) executed in lock-step on a sorted-map model, memdb, goleveldb and " +
 		"(alphabets without 0xff) badger, each on a fresh database; every write is followed by a Get of the written keys, every iterator step is compared (return value, Valid, Key, Value, ValueCopy). " +
@@ -1223,7 +1225,7 @@ func run(c *lib.Ctx) {
 		"error values returned by Delete/Write for absent keys are not compared (not part of the statement)",
 		"Next on an invalid iterator is compared on memdb/goleveldb (must stay invalid) and not executed on badger (nil item dereference in the library)",
 		"empty keys are not written (badger rejects them)")
-	n := c.N(150, 5000)
+	n := c.N(150, 2000)
 	maxOps := 600
 	if !c.Quick() {
 		maxOps = 2000
